@@ -76,13 +76,13 @@ type sessOpts struct {
 }
 
 type session struct {
-	Conn   ssh.Conn
-	Chans  <-chan ssh.NewChannel
-	Reqs   <-chan *ssh.Request
-	Peer   *refpeer.Conn
-	goEnd  net.Conn
-	prEnd  net.Conn
-	opts   sessOpts
+	Conn  ssh.Conn
+	Chans <-chan ssh.NewChannel
+	Reqs  <-chan *ssh.Request
+	Peer  *refpeer.Conn
+	goEnd net.Conn
+	prEnd net.Conn
+	opts  sessOpts
 }
 
 // newSession runs version exchange, key exchange and "none" authentication
